@@ -561,6 +561,8 @@ def case_strategy(draw, driver=None):
             c = {"k": k, "a": 10 + i}
             if sc.build_cmd(c).response is not None:
                 c["oc"] = ["value", draw(st.integers(0, 255))] if draw(st.booleans()) else ["silent"]
+                if drv == "hasseb" and draw(st.integers(0, 3)) == 0:
+                    c["oc"] = ["error", draw(st.sampled_from([0, 0x55, 0xFF]))]      # several units answered at once
             callers.append({"kind": "send", "cmds": [c], "t0": round(t, 4)})
             t += 0.2
             if drv in ("luba", "sci", "tridonic") and draw(st.integers(0, 2)) == 0:
